@@ -62,7 +62,7 @@ PLAN["C20"] = {
     "parts": [{"engine": "enginesim", "quick": 500000, "thorough": 30000000}],
     "nontrivial": ">=2 Interests were pending simultaneously and >=2 kinds of result (Data, Nack, timeout) occurred",
     "fault_note": "the scenario decides every interleaving of Express, Data/Nack arrival, 'fire the k-th due timer' and clock advance (on the dummy and production timers every due timer fires on each advance); network faults = Data that never comes (timeout), late Data after the deadline, duplicated Data, Nacks for names with and without a pending Interest; the face recycles its receive buffer after each callback",
-    "components": {"real": ["std/engine/basic Engine (Express, onPacket, onData, onNack, timeout closures, handlers, Reply)", "std/engine/basic NameTrie", "std/ndn/spec_2022 codec", "std/engine/dummy Timer and DummyFace (30% of runs: the engine runs on the repository's own virtual-clock timer and dummy face)", "std/engine/basic Timer (1% of runs: production timer on a synctest bubble clock, timeouts on timer goroutines)"], "stub": ["face (SimFace implementing std/engine/face.Face; 70% of runs)", "timer (SimTimer implementing ndn.Timer: event heap, scenario-chosen firing order; 69% of runs)"]},
+    "components": {"real": ["std/engine/basic Engine (Express, onPacket, onData, onNack, timeout closures, handlers, Reply)", "std/engine/basic NameTrie", "std/ndn/spec_2022 codec", "std/engine/dummy Timer and DummyFace (30% of runs: the engine runs on the repository's own virtual-clock timer and dummy face)", "std/engine/basic Timer (2% of runs: production timer on a synctest bubble clock, timeouts on timer goroutines)"], "stub": ["face (SimFace implementing std/engine/face.Face; 70% of runs)", "timer (SimTimer implementing ndn.Timer: event heap, scenario-chosen firing order; 68% of runs)"]},
     "assumptions": ["Express is not called re-entrantly from inside a result callback (the engine holds its PIT lock there)", "a Nack is allowed, not required, to resolve the Interests of its name"],
 }
 PLAN["C11"] = {
@@ -80,11 +80,11 @@ PLAN["C10"] = {
     "assumptions": ["PIT tokens are at most 32 bytes (NDNLPv2)", "the receiver is a non-local face (local faces fan Data out to several threads by design)"],
 }
 PLAN["C04"] = {
-    "parts": [{"engine": "rxsim", "quick": 6000, "thorough": 600000}, {"engine": "dvsim", "quick": 1200, "thorough": 60000, "quick_wall": 45}, {"engine": "objsim", "quick": 1500, "thorough": 80000, "quick_wall": 45}],
-    "nontrivial": "rxsim: >=1 corrupted frame was put on the link and >=1 frame of the run decoded past its outer type-length; dvsim: >=1 corrupted routing packet (sync Interest, advertisement Interest/Data, prefix Interest/Data) reached a router; objsim: >=1 corrupted metadata/segment Interest or Data reached the producer or the consumer",
+    "parts": [{"engine": "rxsim", "quick": 6000, "thorough": 600000}, {"engine": "dvsim", "quick": 1200, "thorough": 60000, "quick_wall": 45}, {"engine": "objsim", "quick": 1500, "thorough": 80000, "quick_wall": 45}, {"engine": "svsim", "quick": 3000, "thorough": 150000, "quick_wall": 45}],
+    "nontrivial": "rxsim: >=1 corrupted frame was put on the link and >=1 frame of the run decoded past its outer type-length; dvsim: >=1 corrupted routing packet (sync Interest, advertisement Interest/Data, prefix Interest/Data) reached a router; objsim: >=1 corrupted metadata/segment Interest or Data reached the producer or the consumer; svsim: >=1 corrupted Sync Interest reached a node",
     "fault_note": "link corruption fault over valid traffic (bare and LP-wrapped Interests/Data, Nacks, idle frames, real fragments): every TLV length replaced by boundary/huge values (with and without patching the enclosing lengths), truncation, bit flips, type confusion, inserted bytes, fragment index/count/sequence rewrites, PIT tokens naming thread count-1/count/65535, random frames; optionally delivered through the stream framing loop under arbitrary chunking",
-    "components": {"real": ["fw/face readTlvStream", "fw/face NDNLPLinkService.handleIncomingFrame + reassembly + dispatchInterest/dispatchData", "fw/dispatch GetFWThread", "fw/fw Thread.Run (1..32 threads) with PIT/CS/FIB behind it", "std/engine/basic Engine.onPacket (same frames, contiguous and 2-/3-segment readers)", "std/ndn/spec_2022 decoders (Interest, Data, LpPacket)", "std/encoding readers", "dvsim part: dv/dv Router receive handlers, dv/tlv decoders (Advertisement, PrefixOpList, sync state vector), std/engine/basic Engine per router - routing traffic corrupted in transit", "objsim part: std/object consumer and producer clients, segment fetcher, std/ndn/rdr_2024 metadata decoder - object traffic corrupted in transit"], "stub": ["transport (SimTransport)", "upstream face (sink)", "dvsim part: the forwarders between daemons (hub), SvSync dissemination", "objsim part: faces, network"]},
-    "assumptions": ["decided for the forwarder's and the application engine's receive paths and the decoders they reach; dv/tlv decoders are reached by this check's dvsim part (routing packets corrupted in transit, including the TLVs nested in Data content), mgmt_2022 ControlParameters by mgmtsim's corrupted-parameter fault (C17), rdr_2024 and the object clients by this check's objsim part; svs_2024, ndncert_0_3, schema/demosec and the generator's test models are not reached by any simulated component and are NOT decided (see DESIGN.md 6.C04)",
+    "components": {"real": ["fw/face readTlvStream", "fw/face NDNLPLinkService.handleIncomingFrame + reassembly + dispatchInterest/dispatchData", "fw/dispatch GetFWThread", "fw/fw Thread.Run (1..32 threads) with PIT/CS/FIB behind it", "std/engine/basic Engine.onPacket (same frames, contiguous and 2-/3-segment readers)", "std/ndn/spec_2022 decoders (Interest, Data, LpPacket)", "std/encoding readers", "dvsim part: dv/dv Router receive handlers, dv/tlv decoders (Advertisement, PrefixOpList, sync state vector), std/engine/basic Engine per router - routing traffic corrupted in transit", "objsim part: std/object consumer and producer clients, segment fetcher, std/ndn/rdr_2024 metadata decoder - object traffic corrupted in transit", "svsim part: std/sync SvSync (2-4 instances: main loop, suppression, periodic timer on the bubble clock), std/ndn/svs_2024 state-vector decoder, std/engine/basic Engine per node - Sync Interests corrupted in transit"], "stub": ["transport (SimTransport)", "upstream face (sink)", "dvsim part: the forwarders between daemons (hub), SvSync dissemination", "objsim part: faces, network", "svsim part: faces, multicast link"]},
+    "assumptions": ["decided for the forwarder's and the application engine's receive paths and the decoders they reach; dv/tlv decoders are reached by this check's dvsim part (routing packets corrupted in transit, including the TLVs nested in Data content), mgmt_2022 ControlParameters by mgmtsim's corrupted-parameter fault (C17), rdr_2024 and the object clients by this check's objsim part; svs_2024 by this check's svsim part; ndncert_0_3, schema/demosec and the generator's test models are not reached by any simulated component and are NOT decided (see DESIGN.md 6.C04)",
                     "allocation bound per frame: 1 MiB + 64 x frame length (forwarder), 4x that for the engine's three passes"],
     "level_text": "Seeded search over corrupted traffic delivered to the real receive paths in a deterministic simulation; invariants per frame: no panic, bounded allocation, bounded steps, no state change on undecodable frames. Samples the byte-sequence space through structure-aware mutation; not a proof, and scoped to decoders a simulated component reaches.",
 }
@@ -96,7 +96,7 @@ PLAN["C17"] = {
     "assumptions": ["RIB commands use the /r name space and FIB commands the /f name space (the RIB rewrites the FIB entry of a prefix it manages)", "an MTU below 64 bytes cannot carry a packet and must be refused; 64..127 is left open; >=128 must be accepted", "a requester never destroys its own face or the internal face", "NLSR readvertisement is off"],
 }
 PLAN["C16"] = {
-    "parts": [{"engine": "schedsim", "quick": 40000, "thorough": 3000000}],
+    "parts": [{"engine": "schedsim", "quick": 30000, "thorough": 2500000}],
     "nontrivial": ">=1 task was parked inside a RIB mutator while another task ran, or the scenario's release order decided more than 4 scheduling points",
     "fault_note": "schedule fault = which parked task is released at each yield point (before every FIB/RIB lock acquisition, inside every critical section - where the hook also probes that the lock the section needs is really held, and on arrival at a lock whether it is already held: re-entrancy - between the steps of face removal, between a lookup's return and the use of its result); endpoint fault = face teardown racing with registrations and lookups",
     "components": {"real": ["fw/table RibTable (AddEncRoute, RemoveRouteEnc, CleanUpFace)", "fw/table FibStrategyTree / FibStrategyHashTable incl. their RWMutex", "fw/face Table.Remove", "fw/dispatch face map"], "stub": ["the threads themselves: management thread, face send goroutines and forwarding threads are represented by simulated tasks that issue the same table calls"]},
@@ -135,6 +135,7 @@ NOT_APPLICABLE = [
 
 ENGINES = [
     {"name": "dvsim", "path": "sim/dvsim", "serves_properties": ["C18", "C19"], "kind_free_text": "N real routing daemons on real engines in one synctest bubble over a simulated hub (scenario-chosen delivery order, loss, duplication, link/router failures); reference route table replayed from the command stream"},
+    {"name": "svsim", "path": "sim/svsim", "serves_properties": ["C04"], "kind_free_text": "2-4 real State Vector Sync instances on real engines in one synctest bubble, joined by a multicast link that drops, duplicates and corrupts Sync Interests"},
     {"name": "objsim", "path": "sim/objsim", "serves_properties": ["C15"], "kind_free_text": "real object producer and consumer clients on real engines in one synctest bubble, joined by a scripted lossy/reordering network; differential store histories"},
     {"name": "schedsim", "path": "sim/schedsim", "serves_properties": ["C16"], "kind_free_text": "cooperative seeded scheduler releasing real goroutines one at a time at table-lock yield hooks; porcupine linearizability check"},
     {"name": "mgmtsim", "path": "sim/mgmtsim", "serves_properties": ["C17"], "kind_free_text": "whole forwarder (management thread, internal face, forwarding threads, link services) in one synctest bubble; command histories against a command-level reference model"},
